@@ -9,7 +9,7 @@ from harness import gridprobes as G
 
 PROP = "C05"
 TARGETS = ["IbicusModel.Props.C05", "IbicusModel.Lemmas.GenGridLoops"]
-GEN = ["GridDispatch", "GridLoops"]
+GEN = ["GridLoops"]
 
 SHAPES = [(1, 1), (1, 4), (4, 1), (2, 3), (3, 2), (2, 2), (1, 2), (3, 1), (3, 3)]
 DTYPES = ["f8", "f4", "i8", "mixed"]
@@ -452,9 +452,9 @@ def run(tier, res, force_search=False):
         "the starmap contract is *derived* from that model (Props.C05.starmap_contract), that the runtime behaves like the model is trusted and exercised by the tier-B runs",
         "numpy basic-slice assignment output[:, i, j] = result: same length, length-1 or scalar is broadcast, anything else raises ValueError (Model.Grid.colOf)",
         "np.ndindex is C-order (Model.Grid.ndindex); checked against numpy on every run",
-        "tier A (translator/extract_griddispatch.py): the four call sites of Debiaser.apply / DeltaChange.apply and the statements of the catch wrapper and the two "
-        "map functions are regenerated from the source as data (Gen/GridDispatch.lean) and proved equal to Model/GridDispatch.lean; Model.GridDispatch.interp is "
-        "my reading of a call site's argument list as a call of Model.Grid.applyGrid",
+        "tier A (translator/extract_gridloops.py): the structure of Debiaser.apply / DeltaChange.apply (four call sites), of the catch wrapper and of the two "
+        "map functions is regenerated from the source as data with names resolved to roles (Gen/GridLoops.lean) and proved equal to Model/GridLoops.lean; "
+        "Model.GridLoops.denote* is my reading of such a spec as a computation on Model.Grid (proved equal to applySerial / applyParallel / debiaserApplyKw / deltaChangeApplyKw)",
         "multiprocessing internals used as the tie of the chunk model: Pool._get_tasks (chunking) and MapResult._chunksize (default chunk size) of the running "
         "interpreter; one pool task = (func, chunk) pickled together, so every chunk runs on its own copy of the instance (Model.Grid.chunkTask) — exercised by the counting probe",
     ]
